@@ -69,16 +69,23 @@ class _RemoteTraceback(Exception):
         return self.tb
 
 
+class InjectedWorkerFault(OSError):
+    """The simulator's task-level fault: a worker task fails (transient I/O error,
+    lost result).  Raised inside the worker only, never in the parent."""
+
+
 class Scheduler:
     """One per run: owns every pool, every worker, the schedule and its log."""
 
-    def __init__(self, chooser, log, mode="uniform", rng=None, pct_changes=(), stalls=(), step_cap=200000, disk=None):
+    def __init__(self, chooser, log, mode="uniform", rng=None, pct_changes=(), stalls=(), step_cap=200000, disk=None, fails=()):
         self.chooser = chooser
         self.log = log
         self.mode = mode
         self.rng = rng
         self.pct_changes = set(pct_changes)
         self.stalls = list(stalls)  # (at_step, worker_ordinal, duration)
+        self.fails = {int(o): how for o, how in fails}  # task ordinal -> "before" | "after" (injected task failure)
+        self.failed = []  # ordinals whose failure actually fired
         self.step = 0
         self.step_cap = step_cap
         self.pools = []
@@ -86,7 +93,8 @@ class Scheduler:
         self.completed = []  # tasks in completion order (global)
         self.disk = disk
         self.stats = {"dispatch": 0, "run": 0, "main": 0, "yield": 0, "stall_skips": 0, "tasks": 0, "forks": 0,
-                      "worker_multi_task": 0, "completion_neq_submission": 0, "interleaved_tasks": 0, "max_concurrent_started": 0}
+                      "worker_multi_task": 0, "completion_neq_submission": 0, "interleaved_tasks": 0, "max_concurrent_started": 0,
+                      "task_failures_injected": 0}
         self.prio = {}
         self.assign = []  # (task ordinal, worker ordinal)
         self.stalled_until = {}
@@ -280,7 +288,12 @@ def _worker_main(ordinal, cmd_r, msg_w, initializer, initargs, sched):
             first = False
             try:
                 fn, args, kwargs = pickle.loads(cmd[1])
+                how = cmd[2] if len(cmd) > 2 else None
+                if how == "before":
+                    raise InjectedWorkerFault(5, "injected transient failure of a worker task (before it ran)")
                 res = fn(*args, **kwargs)
+                if how == "after":
+                    raise InjectedWorkerFault(5, "injected transient failure of a worker task (result lost)")
                 payload = ("ok", pickle.dumps(res, protocol=pickle.HIGHEST_PROTOCOL))
             except BaseException as e:
                 tb = "".join(traceback.format_exception(type(e), e, e.__traceback__))
@@ -451,8 +464,13 @@ class SimPool(cf.Executor):
         s.stats["dispatch"] += 1
         s.assign.append((t.ordinal, w.ordinal))
         s.log.add(s.step, "dispatch", t.ordinal, w.ordinal)
+        how = s.fails.get(t.ordinal)
+        if how is not None:
+            s.stats["task_failures_injected"] += 1
+            s.failed.append(t.ordinal)
+            s.log.add(s.step, "task-fail", t.ordinal, how)
         try:
-            _send(w.cmd_w, ("task", t.payload))
+            _send(w.cmd_w, ("task", t.payload) if how is None else ("task", t.payload, how))
             msg = _recv(w.msg_r)
             assert msg[0] == "accepted"
         except (EOFError, OSError):
